@@ -26,6 +26,19 @@ def verify_unit(args):
     from .engine import Exec
     from .solve import discharge
     t0 = time.time()
+    if kind == "static":
+        from .repo import Repo
+        from .origin import run_static
+        repo = Repo(repo_root)
+        for m in ("liquer.store", "liquer.cache", "liquer.context", "liquer.parser", "liquer.commands", "liquer.state", "liquer.recipes"):
+            repo.module(m)
+        vcs = run_static(repo, name)
+        for i, v in enumerate(vcs):
+            v.setdefault("vc", i); v.setdefault("line", None); v.setdefault("path", None); v.setdefault("expect", "unsat")
+            v.setdefault("model", None); v.setdefault("tried", [("static", v["result"], 0.0)]); v.setdefault("inputs", None)
+        return dict(unit="static:" + str(name[:2]), kind="static", vcs=vcs,
+                    meta=dict(qualname="static:%s:%s" % (name[0], name[1]), kind="static", file=None, paths=len(vcs), gen_seconds=time.time() - t0,
+                              assumptions=[], dropped_calls=[], used_contracts=[]))
     ex = Exec(repo_root)
     if kind == "fuc":
         obls, meta = ex.verify_fuc(name)
@@ -63,9 +76,9 @@ if __name__ == "__main__":
     pid = sys.argv[1]
     p = dsl.REG.props[pid]
     only = sys.argv[2] if len(sys.argv) > 2 else None
-    units = [("fuc", f) for f in p["fucs"]] + [("lemma", l) for l in p["lemmas"]]
+    units = [("fuc", f) for f in p["fucs"]] + [("lemma", l) for l in p["lemmas"]] + [("static", x) for x in p.get("static", [])]
     for kind, name in units:
-        if only and only not in name:
+        if only and only not in str(name):
             continue
         r = verify_unit((kind, name, 10.0, False, "/repo"))
         print("==", kind, name, "paths", r["meta"].get("paths"), "gen %.2fs" % r["meta"]["gen_seconds"])
